@@ -4,6 +4,7 @@
     current source tree (they are re-proved whenever the extracted sequence changes). *)
 From Saml Require Import Base.Bytes Idp.FactTypes Gen.Facts Idp.Callback Proofs.CallbackProofs Proofs.CallbackHistory.
 From Saml Require Import Idp.BuilderTypes Idp.Builder Idp.BuiltDoc.
+From Saml Require Idp.AttrRefine.
 
 Notation run_cb form_ok form_id lookup_req app_entity userinfo cert_ok sign_ok :=
   (callback form_ok form_id lookup_req app_entity userinfo cert_ok sign_ok callback_seq loginResponse_seq).
@@ -103,6 +104,19 @@ Theorem C01_failed_response_content : forall reqid acs issuer audience reason me
     at_ d ["Assertion"%string] = None).
 Proof. exact failed_response_fields. Qed.
 
+(** REFINEMENT: a non-Success reply of the model ({| ...; m_resp := CFailed status message |}) is what the document built by the
+    program translated from makeFailedResponse abstracts to: the stored request's ID, its consumer URL as Destination (absent iff
+    empty), the status and message -- and no assertion at all *)
+Theorem C01_failed_refines_model : forall rec ent issuer st msg id1 rest issue until,
+  let M := {| m_in_response_to := sr_reqid rec; m_destination := sr_acs rec; m_audience := ent; m_resp := CFailed st msg |} in
+  built_sat "makeFailedResponse" (Some (response_rec (sr_reqid rec) (sr_acs rec) issuer ent)) [DStr st; DStr msg; DStr (b "f")] (id1 :: rest) issue until
+    (fun d r => r = rest /\
+       AttrRefine.opt_str (at_ d ["InResponseTo"%string]) = m_in_response_to M /\ AttrRefine.opt_str (at_ d ["Destination"%string]) = m_destination M /\
+       (at_ d ["Destination"%string] = None <-> m_destination M = []) /\
+       m_resp M = CFailed (AttrRefine.opt_str (at_ d ["Status"; "StatusCode"; "Value"]%string)) (AttrRefine.opt_str (at_ d ["Status"; "StatusMessage"]%string)) /\
+       at_ d ["Assertion"%string] = None).
+Proof. exact AttrRefine.failed_message_refines. Qed.
+
 Print Assumptions C01_success_only_if_done.
 Print Assumptions C01_one_reply.
 Print Assumptions C01_failure_statuses.
@@ -110,3 +124,4 @@ Print Assumptions C01_no_userinfo_before_done.
 Print Assumptions C01_no_panic.
 Print Assumptions C01_histories.
 Print Assumptions C01_failed_response_content.
+Print Assumptions C01_failed_refines_model.
